@@ -308,7 +308,7 @@ impl AnalyzeExpression for BinaryExpression {
 
         match (lhs_type, rhs_type) {
             (Some(DataType::Int), Some(DataType::Int)) => { /* happy path */ }
-            (Some(DataType::Int), Some(_)) | (Some(_), Some(DataType::Int)) => {
+            (Some(lhs_type), Some(rhs_type)) if lhs_type != rhs_type => {
                 self.info.append_error(SplError(
                     self.to_range(),
                     SemanticErrorMessage::OperatorDifferentTypes.into(),
